@@ -23,9 +23,9 @@ ALPHA["anchored"] = ALPHA["group"]
 ALPHA["maybe-empty"] = ALPHA["none"]
 ALPHA["optional-group"] = ALPHA["group"]
 ALPHA_NUM = {
-    "none": ["2", "10", "9.5", "-3", "2.0", "", "   ", "  2", "10  ", "1e1"],
-    "group": ["id: 2", "id: 10", "id: 9.5", "id: -3", "id: 2.0", "", "other", "  id: 2", "id: 10  ; x", "id: 1e1"],
-    "plain": ["x 2", "10", "z 9.5", "-3", "q 2.0", "", "   ", "  2", "10  ", "k\t1e1"],
+    "none": ["2", "10", "9.5", "-3", "2.0", "", "   ", "  2", "10  ", "1e1", "007", "0010"],       # zero-padded: longer text, smaller number
+    "group": ["id: 2", "id: 10", "id: 9.5", "id: -3", "id: 2.0", "", "other", "  id: 2", "id: 10  ; x", "id: 1e1", "id: 007", "id: 0010"],
+    "plain": ["x 2", "10", "z 9.5", "-3", "q 2.0", "", "   ", "  2", "10  ", "k\t1e1", "y 007", "0010"],
 }
 ALPHA_NUM["group2"] = ALPHA_NUM["group"]
 ALPHA_NUM["anchored"] = ALPHA_NUM["group"]
